@@ -6,6 +6,8 @@ import (
 	"flag"
 	"fmt"
 	"math/rand"
+	"os"
+	"runtime"
 	"sync"
 	"time"
 
@@ -75,7 +77,16 @@ func main() {
 						}
 					}()
 				}
-				wg.Wait()
+				finished := make(chan struct{})
+				go func() { wg.Wait(); close(finished) }()
+				select {
+				case <-finished:
+				case <-time.After(30 * time.Second):
+					fmt.Printf("race-pass rounds=%d operations=%d\nHANG: a round of %d goroutines (wrapped=%v) did not finish within 30 s\n", rounds, ops, workers, wrapped)
+					buf := make([]byte, 1<<16)
+					fmt.Printf("%s\n", buf[:runtime.Stack(buf, true)])
+					os.Exit(67)
+				}
 				rounds++
 				ops += workers * 150
 			}
